@@ -72,6 +72,37 @@ def setKeys (C : Crypto) (keys : List Bytes) : Option (List TKey) :=
 /-- `TicketKeyFromBytes(b)` (u_public.go): an empty Config's `ticketKeyFromBytes`, made public. -/
 def publicKeyFromBytes (C : Crypto) (b : Bytes) : TKey := keyFromBytes C b
 
+/-! ### Which keys a Config uses (`Config.ticketKeys` + `initLegacySessionTicketKeyRLocked`)
+
+`legacy` is a user-set, non-zero `Config.SessionTicketKey` (not the library's own marker);
+`installed` is `c.sessionTicketKeys`. `none` from `current` means the auto-rotated keys are used
+(random, not modelled). -/
+
+structure KeyCfg where
+  legacy : Option Bytes
+  installed : List TKey
+
+/-- one call of `c.ticketKeys(nil)`: explicit keys win; else a user-set legacy key is derived and
+*installed*; else automatic keys. -/
+def KeyCfg.current (C : Crypto) (c : KeyCfg) : KeyCfg × Option (List TKey) :=
+  if c.installed.isEmpty then
+    match c.legacy with
+    | some b => ({ c with installed := [keyFromBytes C b] }, some [keyFromBytes C b])
+    | none => (c, none)
+  else (c, some c.installed)
+
+/-- `SetSessionTicketKeys(bs)` for non-empty `bs`. -/
+def KeyCfg.set (C : Crypto) (c : KeyCfg) (bs : List Bytes) : KeyCfg :=
+  { c with installed := bs.map (keyFromBytes C) }
+
+inductive KOp where
+  | use
+  | set (bs : List Bytes)
+
+def KeyCfg.step (C : Crypto) (c : KeyCfg) : KOp → KeyCfg
+  | .use => (c.current C).1
+  | .set bs => c.set C bs
+
 /-! ### Forged client sessions (`MakeClientSessionState` and the setters, u_public.go) -/
 
 structure ClientSess where
